@@ -11,8 +11,9 @@ _os.environ['FALCON_CUSTOM_HTTP_METHODS'] = ','.join(CUSTOM_METHODS)
 
 PROP = 'C03'
 LEAN_MODULES = ['FalconModel.PipelineProofs', 'FalconModel.PipelineSpec', 'FalconModel.PipelineErrProofs', 'FalconModel.HooksLifespanProofs',
-                'FalconModel.PipelineHooksProofs', 'FalconModel.PipelineRegProofs', 'FalconModel.PrepareMwProofs']
-DRIVERS = ['pldriver', 'hkdriver', 'phdriver', 'pgdriver']
+                'FalconModel.PipelineHooksProofs', 'FalconModel.PipelineRegProofs', 'FalconModel.PrepareMwProofs',
+                'FalconModel.ErrHandlers', 'FalconModel.ErrHandleProofs']
+DRIVERS = ['pldriver', 'hkdriver', 'phdriver', 'pgdriver', 'ehdriver']
 THEOREMS = [
     # falcon/app.py + falcon/asgi/app.py __call__, falcon/app_helpers.py prepare_middleware (model Pl.run)
     'Pl.respLoop_idx', 'Pl.reqIndep_noResp', 'Pl.rsrcLoop_noResp', 'Pl.reqDep_noResp', 'Pl.reqDep_stack', 'Pl.reached_sub',
@@ -55,8 +56,13 @@ THEOREMS = [
     # falcon/app_helpers.py prepare_middleware (model Pm, FalconModel/PrepareMw.lean): how the three HTTP methods of a component are found
     # (per method: *_async or plain), the compatibility checks, the three stacks
     'Pm.lookup_async_wins', 'Pm.lookup_plain_when_no_async', 'Pm.lookup_wsgi_plain_only', 'Pm.lookup_isSome', 'Pm.prepare_ok', 'Pm.prepare_ok_iff',
+    # _find_error_handler over an ARBITRARY method resolution order (the C04 model Eh.find, reused: the raised class has a generated hierarchy)
+    'Eh.latest_registration_wins', 'Eh.find_most_specific', 'Eh.find_none_iff',
 ]
 STATEMENTS = {
+    'Eh.find_most_specific': '_find_error_handler returns h iff some class of the MRO is registered with h and no class before it in the MRO is registered at all (any linearisation: several bases, diamonds, mixins)',
+    'Eh.find_none_iff': 'no handler is found iff no class of the MRO is registered',
+    'Eh.latest_registration_wins': 'after add_error_handler(c, h) the registry maps c to h, whatever was registered before',
     'Pl.run_eq_spec': 'for every stack of components, every assignment of return / complete / raise to every method and to the responder, every routing outcome (route, 405, sink, 404) and both middleware modes, the whole sequence of calls the framework makes - including the (resource, req_succeeded) arguments of every process_response - equals specTrace: request methods top-down until one completes or raises; resource methods only after a route match when nothing completed or raised; the responder only if nothing completed or raised; then process_response bottom-up once each (dependent mode: only the components reached), the success flag true iff nothing raised so far',
     'Pl.withFlags_flag': 'the j-th process_response call gets req_succeeded = (nothing raised before the response phase) and no earlier process_response raised',
     'Pl.independent_resp_once': 'independent_middleware=True: for every stack, route target and action (return / complete / raise) at every call site, the process_response calls in the trace are exactly the components that define it, once each, in reverse registration order',
@@ -131,7 +137,16 @@ ASSUMPTIONS = [
     'FALCON_CUSTOM_HTTP_METHODS=PURGE,SUBSCRIBE in every worker (set by harness/props/c03.py before falcon is imported; falcon reads it at import time); if falcon does not list them in COMBINED_METHODS the run says so in its notes and leaves custom methods out',
     'WebSocket handshakes: components, hooks and the responder either return or raise (HTTPForbidden, or an application error taken by falcon\'s default handler); the responder accepts the connection and returns',
 ]
-RULE = ('[two dimensions added after seeds C03_13 / C03_15: (A) HOW THE APP OBJECT IS CONSTRUCTED (case keys `entry`, `mode_arg`, `mw_arg`): through every public constructor name - falcon.App, the deprecated alias falcon.API, '
+RULE = ('[two dimensions added after seeds C03_16 / C03_17: (i) THE SHAPE OF THE CLASS HIERARCHY OF WHAT IS RAISED (case key `hier`, action `mi`): the raised class has a generated hierarchy - several bases '
+        '(application base first / a falcon HTTPError or HTTPStatus subclass first), two plain exception bases, diamonds, a mixin that is not an exception, BaseException-only - and handlers are registered for any of its classes '
+        '(the raised class, its first base, a later base, ancestors of either, a common ancestor, built-in / falcon classes it derives from, classes outside its MRO, the same class twice); enumerated: 19 hierarchy templates x '
+        '{no registration, every single class of the MRO, every pair, every class twice} x WSGI+ASGI with the handler behaviour, raising site (middleware methods, responder, hooks), mode and a table entry rotated (thorough: every site); '
+        'random: 12 % of the random cases carry a random hierarchy of 2-6 classes with 0-3 bases each. The oracle linearises the hierarchy itself (C3 on the class names) and demands the handler of the most specific registered class '
+        'of that MRO, latest registration winning; the real _find_error_handler is compared with Eh.find over type(ex).__mro__[:-1], and Pl / Pe / Ph / Pg.run are given the MRO-based choice as the handler that is found; '
+        '(ii) LIFESPAN HISTORIES: half of the lifespan runs call add_middleware AFTER the server opened the lifespan scope (the app coroutine is waiting in receive()): before the startup event is delivered, from inside a process_startup handler, '
+        'between startup and shutdown (0-2 components each, bare or as one-element list); the oracle reads the documented discipline on the stack as it stands when each event is processed; Hk.lifespan gets the final stack, a component that was '
+        'not there at startup being one without process_startup] '
+        '[two dimensions added after seeds C03_13 / C03_15: (A) HOW THE APP OBJECT IS CONSTRUCTED (case keys `entry`, `mode_arg`, `mw_arg`): through every public constructor name - falcon.App, the deprecated alias falcon.API, '
         'falcon.asgi.App and a user subclass of each -, independent_middleware given by keyword, positionally or LEFT OUT (then the documented default, True, must be in force: the oracle and the models are told `independent`), the components handed to '
         'the constructor (keyword / positional) or added afterwards with add_middleware (all at once, one by one as bare components / one-element lists, or half and half); enumerated: 6 names x 5 ways of giving the mode x 5 ways of giving the components x '
         '{nothing raises, HTTPError / handled app error at process_request of the 1st / 2nd / 3rd component, at a process_resource, the responder, a process_response} x {route, unrouted} on a 4-component stack; random: 50 % of the cases name an entry point, '
@@ -192,7 +207,44 @@ PARTIAL = ('Proved in Lean: the whole call trace of the model equals the documen
            'Handlers registered for BaseException or for several classes at once are not generated. prepare_middleware is modelled (Pm) with its lookups, checks and stacks; the proof that the stacks Pm builds are the ones Pe.tries assumes is by reading (Pm.prepare_ok states them in the same form).')
 JOBS = {'quick': 12, 'thorough': 16}
 
-RAISES = {'http': 403, 'status': 202, 'app_h': 418, 'app_d': 500, 'app_hh': 409, 'app_hs': 299, 'app_he': None, 'base': None, 'app_hr': None}
+RAISES = {'http': 403, 'status': 202, 'app_h': 418, 'app_d': 500, 'app_hh': 409, 'app_hs': 299, 'app_he': None, 'base': None, 'app_hr': None,
+          'mi': None}      # 'mi': an instance of case['hier']['raised'] - a class of a generated class HIERARCHY (several bases, diamonds, mixins)
+# THE SHAPE OF THE CLASS HIERARCHY of what is raised (case key `hier`): {'classes': [[name, [base names]], ...] in definition order,
+# 'raised': name, 'reg': [[class name, behaviour], ...] in registration order (the same class may occur twice: the latest wins)}.
+# Base names are earlier classes of the hierarchy or these (name -> bases; `object` is left out everywhere):
+HIER_BUILTIN = {'BaseException': [], 'Exception': ['BaseException'], 'LookupError': ['Exception'], 'KeyError': ['LookupError'],
+                'ValueError': ['Exception'], 'RuntimeError': ['Exception'], 'HTTPError': ['Exception'], 'HTTPForbidden': ['HTTPError'],
+                'HTTPTooManyRequests': ['HTTPError'], 'HTTPNotFound': ['HTTPError'], 'HTTPStatus': ['Exception'], 'BaseOnly': ['BaseException']}
+HIER_STATUS = {'HTTPForbidden': 403, 'HTTPTooManyRequests': 429, 'HTTPNotFound': 404, 'HTTPError': 403}   # the status an instance carries
+HIER_TABLED = {'HTTPError': 'E', 'HTTPStatus': 'S', 'Exception': 'X'}     # registered through case['handlers'] (else falcon's default handler)
+BEH_STD = {'sets': 'app_h', 'http': 'app_hh', 'status': 'app_hs', 'plain': 'app_he'}   # the application class whose own handler behaves like that
+
+
+def _c3(name, classes):
+    """The method resolution order of class `name` (C3 linearisation as the language reference defines it; `object` left out), computed on
+    the NAMES: classes maps name -> list of base names.  None if the bases cannot be linearised."""
+    bases = classes[name]
+    seqs = [_c3(b, classes) for b in bases]
+    if any(q is None for q in seqs):
+        return None
+    seqs = [list(q) for q in seqs] + [list(bases)]
+    out = [name]
+    while any(seqs):
+        for q in seqs:
+            if q and not any(q[0] in t[1:] for t in seqs):
+                head = q[0]
+                break
+        else:
+            return None
+        out.append(head)
+        for t in seqs:
+            if t and t[0] == head:
+                t.pop(0)
+    return out
+
+
+def hier_mro(hier):
+    return _c3(hier['raised'], dict(HIER_BUILTIN, **{n: list(b) for n, b in hier['classes']}))
 CUSTOM = ('app_h', 'app_hh', 'app_hs', 'app_he')        # a custom (generated) error handler runs for these
 CUSTOM_ALL = CUSTOM + ('app_hr',)                       # ... and for this one: the handler registered for the class re-raises what it got
 ESCAPING = ('app_he', 'base')                           # the exception leaves __call__: handler raised a plain exception / no handler at all
@@ -253,6 +305,37 @@ def dispatch(case, a):
     table = case.get('handlers') or {}
     if a == 'base':
         return None, None                                   # derives from BaseException only: nothing is registered that matches
+    cn = {'http': 'HTTPForbidden', 'notfound': 'HTTPNotFound'}.get(a)
+    ks = [k for k, (rc, _) in enumerate(case['hier']['reg']) if rc == cn] if cn and case.get('hier') else []
+    if ks:
+        # the hierarchy's registrations include the very class of this HTTPError (HTTPForbidden() / falcon's own HTTPNotFound()): most specific
+        who, beh = f'M{cn}#{ks[-1]}', case['hier']['reg'][ks[-1]][1]
+        return who, (RAISED_STATUS[a] if beh == 'same' else BEH_STATUS.get(beh))
+    if a == 'mi':
+        # a class with a generated hierarchy: "the framework will choose the most specific one, as determined by the method resolution order
+        # of the raised exception type"; the most recent registration for a class replaces the earlier ones
+        hier = case['hier']
+        mro = hier_mro(hier)
+        if 'Exception' not in mro:
+            return None, None                               # BaseException only, like 'base'
+        http_status = next((HIER_STATUS[c] for c in mro if c in HIER_STATUS), None)
+        raised_status = 202 if 'HTTPStatus' in mro else http_status          # what the exception itself says (None: not an HTTPError / HTTPStatus)
+        for c in mro:
+            ks = [k for k, (rc, _) in enumerate(hier['reg']) if rc == c]
+            if ks:
+                who, beh = f'M{c}#{ks[-1]}', hier['reg'][ks[-1]][1]
+                break
+            if c in HIER_TABLED:
+                key = HIER_TABLED[c]
+                if key not in table:
+                    return None, {'E': http_status, 'S': 202, 'X': 500}[key]     # falcon's default handler for that class
+                who, beh = key, table[key]
+                break
+        else:
+            return None, None                               # no class of the MRO is registered
+        if beh == 'same':
+            return who, raised_status
+        return who, BEH_STATUS.get(beh)
     if a in OWN_BEH:
         who, beh = a, OWN_BEH[a]                            # a handler for the very class: most specific
     else:
@@ -359,6 +442,29 @@ def _build(case, trace, box=None):
     excs = {'app_h': AppH, 'app_d': AppD, 'app_hh': AppHH, 'app_hs': AppHS, 'app_he': AppHE, 'app_hr': AppHR}
     table = case.get('handlers') or {}
     routed = {}                 # 'obj': the resource object given to add_route (the `resource` argument middleware methods must receive)
+    # the generated class hierarchy of the 'mi' action
+    hier = case.get('hier')
+    hcls = {'BaseException': BaseException, 'Exception': Exception, 'LookupError': LookupError, 'KeyError': KeyError, 'ValueError': ValueError,
+            'RuntimeError': RuntimeError, 'HTTPError': falcon.HTTPError, 'HTTPForbidden': falcon.HTTPForbidden,
+            'HTTPTooManyRequests': falcon.HTTPTooManyRequests, 'HTTPNotFound': falcon.HTTPNotFound, 'HTTPStatus': falcon.HTTPStatus, 'BaseOnly': _BaseOnly}
+    for n_, bases_ in (hier['classes'] if hier else ()):
+        hcls[n_] = type(n_, tuple(hcls[b_] for b_ in bases_), {})
+
+    def mk_mi(label):
+        """a well-formed instance of the raised class: initialised the way its falcon base class (if any) requires"""
+        cls = hcls[hier['raised']]
+        e = cls.__new__(cls)
+        f = next((c for c in cls.__mro__ if c.__module__.startswith('falcon')), None)
+        if f is None:
+            BaseException.__init__(e, label)
+        elif f is falcon.HTTPStatus:
+            f.__init__(e, 202)
+        else:
+            # (not f.__init__(e): with two falcon bases the cooperative super() call inside it would reach the other one's __init__)
+            falcon.HTTPError.__init__(e, getattr(falcon, 'HTTP_%d' % HIER_STATUS[f.__name__]))
+        return e
+    if box is not None and hier:
+        box['hcls'], box['mk_mi'] = hcls, mk_mi
 
     def rarg(resource):
         """'' if the `resource` argument is the routed resource object, else a marker that shows up in the trace"""
@@ -371,7 +477,8 @@ def _build(case, trace, box=None):
         if a == 'complete':
             resp.complete = True
         elif a in RAISES:
-            e = falcon.HTTPForbidden() if a == 'http' else falcon.HTTPStatus(202) if a == 'status' else _BaseOnly(label) if a == 'base' else excs[a](label)
+            e = (falcon.HTTPForbidden() if a == 'http' else falcon.HTTPStatus(202) if a == 'status' else _BaseOnly(label) if a == 'base'
+                 else mk_mi(label) if a == 'mi' else excs[a](label))
             e.c03_site = label          # where it was raised (what falcon's own 404 / 405 responder raises has no such mark)
             raise e
 
@@ -509,13 +616,23 @@ def _build(case, trace, box=None):
         app = cls_(*args, **kwargs)
     for more in later:
         app.add_middleware(more)                     # a list of components, or one bare component
+    regs = []                   # the registration history the harness makes, oldest first (after falcon's own three)
+
+    def register(cls, h):
+        app.add_error_handler(cls, h)
+        regs.append((cls, h))
+    if box is not None:
+        box['app'], box['regs'] = app, regs
     for name in CUSTOM_ALL:
-        app.add_error_handler(excs[name], mkhandler(name, OWN_BEH[name]))
+        register(excs[name], mkhandler(name, OWN_BEH[name]))
     # the registration table: the application's own handlers for HTTPStatus / HTTPError / Exception themselves (falcon documents:
     # "error handlers may be registered for any exception type, including HTTPError or HTTPStatus"; they replace the default ones)
     for key, cls in (('S', falcon.HTTPStatus), ('E', falcon.HTTPError), ('X', Exception)):
         if key in table:
-            app.add_error_handler(cls, mkhandler(key, table[key]))
+            register(cls, mkhandler(key, table[key]))
+    # handlers for classes of the generated hierarchy (and for built-in / falcon classes its classes derive from), in registration order
+    for k_, (cn_, beh_) in enumerate(hier['reg'] if hier else ()):
+        register(hcls[cn_], mkhandler(f'M{cn_}#{k_}', beh_))
 
     target = case['target']
     if target in ('route', 'nomethod'):
@@ -771,16 +888,133 @@ def _hook_line(case):
     return 'wrap ' + m.get(case['responder'], 'x') + ' ' + ' '.join(('b' if kind == 'before' else 'a') + m.get(a, 'x') for kind, a in case['hooks'])
 
 
+def _sub_actions(case, f):
+    """a copy of the case with every action a replaced by f(a)"""
+    out = dict(case)
+    out['comps'] = [dict(c, **{m: f(c[m]) for m in METHS}) for c in case['comps']]
+    out['hooks'] = [[kind, f(a)] for kind, a in case['hooks']]
+    out['responder'] = f(case['responder'])
+    return out
+
+
+def _resolved(case):
+    """A case whose raised class has a generated hierarchy, as input of the pipeline models: Pe / Ph take WHAT THE HANDLER THAT IS FOUND DOES as
+    an input (their alphabet Pe.Exc) - they are given the MRO-based choice (Eh.find over type(ex).__mro__[:-1], tied to the real lookup by its own
+    correspondence): the 'mi' action becomes the application class of the standard alphabet whose handler behaves like the one chosen.
+    None if the choice is not in their alphabet (a registration table, a re-raising handler, falcon's default handler composing a status
+    other than 403): those cases are judged by the oracle and the Eh.find correspondence."""
+    if case.get('handlers'):
+        return None
+    regd = {rc for rc, _b in case['hier']['reg']}
+    acts = [c[k] for c in case['comps'] for k in METHS] + [case['responder']] + [a for _, a in case['hooks']]
+    if ('HTTPForbidden' in regd and 'http' in acts) or ('HTTPNotFound' in regd and case['target'] in ('none', 'static_missing')):
+        return None         # a registration of the hierarchy also takes a standard raise of this case: not in the models' alphabet
+    who, status = dispatch(case, 'mi')
+    if who is None:
+        std = {None: 'base', 500: 'app_d', 403: 'http', 202: 'status'}.get(status)
+    else:
+        std = BEH_STD.get(case['hier']['reg'][int(who.partition('#')[2])][1])
+    if std is None:
+        return None
+    out = _sub_actions(case, lambda a: std if a == 'mi' else a)
+    del out['hier']
+    return out
+
+
+def _relabel(case, trace):
+    """the real trace with the invocations of the hierarchy's handlers named by what THAT handler does (the alphabet of the models)"""
+    out = []
+    for t in trace:
+        if t.startswith('h:M'):
+            name, _, at = t[2:].partition('@')
+            t = 'h:' + BEH_STD.get(case['hier']['reg'][int(name.partition('#')[2])][1], 'app_hr') + '@' + at
+        out.append(t)
+    return out
+
+
+def _hier_tie(ctx, esess, case, box):
+    """_find_error_handler of the real app, for an instance of the raised class, against Eh.find over type(ex).__mro__[:-1] and the
+    registration history (falcon's three defaults, then everything the harness registered, in order)"""
+    import falcon
+    app, regs = box['app'], box['regs']
+    ex = box['mk_mi']('probe')
+    cid = {}
+
+    def c_(cls):
+        return cid.setdefault(cls, len(cid) + 1)
+    esess.case({'case': case})
+    esess.op('new', 'ok')
+    for cls, hid in ((Exception, 9001), (falcon.HTTPError, 9002), (falcon.HTTPStatus, 9003)):
+        esess.op(f'reg {c_(cls)} {hid}', 'ok')
+    hids = {}
+    for j, (cls, h) in enumerate(regs):
+        hids[id(h)] = 100 + j
+        esess.op(f'reg {c_(cls)} {100 + j}', 'ok')
+    found = app._find_error_handler(ex)
+    if found is None:
+        real = 'none'
+    elif id(found) in hids:
+        real = str(hids[id(found)])
+    else:
+        real = next((str(hid) for hid, dflt in ((9001, app._python_error_handler), (9002, app._http_error_handler), (9003, app._http_status_handler))
+                     if found == dflt), 'unknown-handler')
+    esess.op('find ' + ','.join(str(c_(cls)) for cls in type(ex).__mro__[:-1]), real)
+    # the oracle's own linearisation against the interpreter's (a harness self-check: the oracle must judge the hierarchy that was built)
+    names = [c.__name__.replace('_BaseOnly', 'BaseOnly') for c in type(ex).__mro__[:-1]]
+    if names != hier_mro(case['hier']):
+        raise AssertionError(f'harness: C3 of the oracle {hier_mro(case["hier"])} != type(ex).__mro__ {names}')
+
+
+def _hier_counts(ctx, case):
+    hier = case['hier']
+    classes = dict(HIER_BUILTIN, **{n: list(b) for n, b in hier['classes']})
+    mro = hier_mro(hier)
+    bases = classes[hier['raised']]
+    ctx.count('raised_class_hierarchy')
+    ctx.count(f'raised_class_with_{len(bases)}_bases')
+    chain, c = [], hier['raised']
+    while c is not None:
+        chain.append(c)
+        c = classes[c][0] if classes[c] else None
+    who, _ = dispatch(case, 'mi')
+    if who is not None and who.startswith('M'):
+        cn = who[1:].partition('#')[0]
+        ctx.count('hierarchy_handler_found_' + ('for_the_raised_class_itself' if cn == hier['raised'] else
+                                                'on_the_chain_of_first_bases' if cn in chain else 'on_a_SECONDARY_base_or_its_ancestors'))
+        if sum(1 for rc, _b in hier['reg'] if rc == cn) > 1:
+            ctx.count('hierarchy_found_class_registered_more_than_once_latest_wins')
+        if len([rc for rc, _b in hier['reg'] if rc in mro]) > 1:
+            ctx.count('hierarchy_several_registered_classes_in_the_MRO_most_specific_wins')
+    elif who is not None:
+        ctx.count('hierarchy_handler_found_in_the_table_for_HTTPStatus_HTTPError_Exception')
+    else:
+        ctx.count('hierarchy_handler_found_falcon_default_or_none')
+    if any('BaseException' not in (_c3(n, classes) or []) for n, _b in hier['classes']):
+        ctx.count('hierarchy_with_a_mixin_that_is_not_an_exception')
+    fal = [b for b in bases if any(x in HIER_STATUS or x == 'HTTPStatus' for x in _c3(b, classes))]
+    if fal and len(bases) > 1:
+        ctx.count('hierarchy_falcon_class_is_' + ('FIRST' if bases[0] in fal else 'a_LATER') + '_base_of_the_raised_class')
+    seen_, dia = set(), False
+    for b in bases:
+        m_ = set(_c3(b, classes)) - {'Exception', 'BaseException'}
+        dia = dia or bool(m_ & seen_)
+        seen_ |= m_
+    if dia:
+        ctx.count('hierarchy_diamond_common_ancestor_below_Exception')
+
+
 ORACLE = 'call trace (incl. process_response arguments and error-handler calls), final status and escape = documented stack discipline'
 
 
-def _execute(ctx, sess, hsess, case, via_testing=False, xsess=None, psess=None, tsess=None):
+def _execute(ctx, sess, hsess, case, via_testing=False, xsess=None, psess=None, tsess=None, esess=None):
     from lib_appcall import call_wsgi, call_asgi, call_via_testing, Result
     trace = []
     box = {}
     app = _build(case, trace, box)
     if via_testing and 'base' in [c[k] for c in case['comps'] for k in METHS] + [case['responder']] + [a for _, a in case['hooks']]:
         via_testing = False                 # the testing client's own loop/validator is not made for BaseException-only raises
+    if via_testing and case.get('hier') and 'Exception' not in hier_mro(case['hier']):
+        via_testing = False
     verb = case.get('verb', 'GET')
     if via_testing and case['stack'] == 'wsgi' and verb not in ('GET', 'POST', 'PATCH'):
         via_testing = False                 # wsgiref.validate (used by the WSGI testing client) rejects WebDAV / custom request methods
@@ -814,7 +1048,23 @@ def _execute(ctx, sess, hsess, case, via_testing=False, xsess=None, psess=None, 
           and r.body != (STATIC_FILE if case['target'] == 'static' else STATIC_FALLBACK)):
         what = f'the static route served {r.body[:60]!r} although every middleware method just returned'
     ctx.oracle(ORACLE, what is None, what, dict(case, via_testing=via_testing))
-    line = _model_line(case)
+    rcase, rtrace = case, trace
+    if case.get('hier'):
+        # the raised class has a generated hierarchy: the lookup itself against Eh.find; the pipeline models get the MRO-based choice
+        if esess is not None:
+            _hier_tie(ctx, esess, case, box)
+        _hier_counts(ctx, case)
+        rcase, rtrace = _resolved(case), _relabel(case, trace)
+        if rcase is None:
+            ctx.count('hierarchy_case_judged_by_oracle_and_Eh_find_only')
+    _model_sessions(ctx, sess, hsess, rcase, rtrace, r, box, via_testing, xsess, psess, tsess, exp_esc)
+    _case_counts(ctx, case, trace, verb, exp_tr, exp_esc)
+
+
+def _model_sessions(ctx, sess, hsess, case, trace, r, box, via_testing, xsess, psess, tsess, exp_esc):
+    if case is None:
+        return
+    line = _model_line(case) if sess is not None else None
     if line is not None:
         sess.case({'case': case})
         sess.op(line, _model_view(trace))
@@ -840,6 +1090,9 @@ def _execute(ctx, sess, hsess, case, via_testing=False, xsess=None, psess=None, 
         if part:
             hsess.case({'case': case})
             hsess.op(_hook_line(case), ' '.join(part))
+
+
+def _case_counts(ctx, case, trace, verb, exp_tr, exp_esc):
     ctx.seen((case['stack'], repr(sorted(case.items(), key=str))), len(trace) > 0)
     ctx.count('stack_' + case['stack'])
     ctx.count('target_' + case['target'])
@@ -884,8 +1137,8 @@ def _execute(ctx, sess, hsess, case, via_testing=False, xsess=None, psess=None, 
     for t in exp_tr:
         if t.startswith('h:'):
             who = t[2:].partition('@')[0]
-            beh = tb[who] if who in tb else OWN_BEH[who]
-            ctx.count('handler_invoked_' + ({'S': 'for_HTTPStatus', 'E': 'for_HTTPError', 'X': 'for_Exception'}.get(who, 'for_own_class')) + '_' + beh)
+            beh = case['hier']['reg'][int(who.partition('#')[2])][1] if who.startswith('M') else tb[who] if who in tb else OWN_BEH[who]
+            ctx.count('handler_invoked_' + ({'S': 'for_HTTPStatus', 'E': 'for_HTTPError', 'X': 'for_Exception'}.get(who, 'for_a_class_of_the_generated_hierarchy' if who.startswith('M') else 'for_own_class')) + '_' + beh)
             # the handler raised (or re-raised) an HTTPStatus / HTTPError while the application has its own handler registered for that class
             raises = {'status': 'S', 'http': 'E'}.get(beh) or ({'S': 'S', 'E': 'E'}.get(who) if beh == 'same' else None)
             if raises in tb:
@@ -1170,6 +1423,118 @@ def _enumerated_targets(ctx):
                         yield (0 if f == 'ret' else 1), case
 
 
+# ------------------------------------------------------------------ the class hierarchy of what is raised
+
+HIER_TEMPLATES = [
+    # (classes in definition order; the LAST one is raised)
+    [['AppError', ['Exception']], ['Raised', ['AppError', 'HTTPTooManyRequests']]],            # application base first, falcon class second
+    [['AppError', ['Exception']], ['Raised', ['HTTPForbidden', 'AppError']]],                  # falcon class first
+    [['AppError', ['Exception']], ['Raised', ['AppError', 'HTTPForbidden']]],
+    [['AppError', ['Exception']], ['Raised', ['ValueError', 'AppError']]],                     # two plain exception bases
+    [['AppError', ['Exception']], ['Raised', ['AppError', 'ValueError']]],
+    [['AppError', ['Exception']], ['Raised', ['KeyError', 'AppError']]],                       # (KeyError -> LookupError -> Exception)
+    [['Root', ['Exception']], ['Left', ['Root']], ['Right', ['Root']], ['Raised', ['Left', 'Right']]],                       # diamond
+    [['Root', ['Exception']], ['Left', ['Root']], ['Right', ['Root', 'HTTPForbidden']], ['Raised', ['Left', 'Right']]],      # diamond, falcon class on one side
+    [['Root', ['RuntimeError']], ['Left', ['Root']], ['Right', ['Root']], ['Mid', ['Left', 'Right']], ['Raised', ['Mid', 'HTTPNotFound']]],
+    [['Tagged', []], ['Raised', ['Tagged', 'ValueError']]],                                    # a mixin that is not an exception
+    [['Tagged', []], ['AppError', ['Exception']], ['Raised', ['Tagged', 'ValueError', 'AppError']]],
+    [['Tagged', []], ['AppError', ['Tagged', 'Exception']], ['Raised', ['AppError', 'HTTPForbidden']]],
+    [['A', ['Exception']], ['B', ['Exception']], ['C', ['A']], ['Raised', ['C', 'B']]],        # the second base outranks the ancestors of the first
+    [['A', ['Exception']], ['B', ['A']], ['Raised', ['B', 'HTTPForbidden']]],
+    [['AppError', ['Exception']], ['Raised', ['AppError', 'HTTPStatus']]],
+    [['AppError', ['Exception']], ['Raised', ['HTTPStatus', 'AppError']]],
+    [['Tagged', []], ['Raised', ['Tagged', 'BaseOnly']]],                                      # BaseException only: no handler can exist
+    [['AppError', ['Exception']], ['Raised', ['AppError']]],                                   # single inheritance, for comparison
+    [['AppError', ['HTTPForbidden']], ['Raised', ['AppError']]],
+]
+HIER_SITES = [(0, 'req'), (1, 'req'), (0, 'rsrc'), 'responder', 'hook_before', 'hook_after', (1, 'resp'), (0, 'resp')]
+
+
+def _hier_registrable(classes_list):
+    """the exception classes of the MRO of the raised class a handler may be registered for here (HTTPError / HTTPStatus / Exception go through
+    case['handlers']; falcon rejects classes that are not exceptions)"""
+    classes = dict(HIER_BUILTIN, **{n: list(b) for n, b in classes_list})
+    mro = _c3(classes_list[-1][0], classes)
+    return [c for c in mro if c not in HIER_TABLED and 'Exception' in _c3(c, classes)]      # (BaseException-only classes: not caught by falcon, by design)
+
+
+def _place(case, st_, kind):
+    if st_ == 'responder':
+        case['responder'] = kind
+    elif st_ == 'hook_before':
+        case['hooks'] = [['before', kind], ['after', 'ret']]
+    elif st_ == 'hook_after':
+        case['hooks'] = [['before', 'ret'], ['after', kind]]
+    else:
+        case['comps'][st_[0]][st_[1]] = kind
+
+
+def _enumerated_hier(ctx, full):
+    """THE SHAPE OF THE CLASS HIERARCHY OF WHAT IS RAISED: every template x handlers registered for {nothing, each single class of the MRO - the raised
+    class, its first base, a later base, an ancestor of either, a common ancestor -, each pair of them, the same class twice (the latest wins)}
+    x WSGI+ASGI, between two full components; what the handlers do, the raising site and the middleware mode rotate by a scrambled index
+    (thorough: every site)."""
+    import itertools
+    idx = 0
+    i, k = ctx.shard
+    behs = ['sets', 'http', 'status', 'plain', 'same']
+    for ti, tpl in enumerate(HIER_TEMPLATES):
+        able = _hier_registrable(tpl)
+        regsets = [()] + [(c,) for c in able] + list(itertools.combinations(able, 2)) + [(c, c) for c in able]
+        for rs in regsets:
+            for stack in ('wsgi', 'asgi'):
+                idx += 1
+                h = _mix(idx)
+                for vi, st_ in enumerate(HIER_SITES if full else [HIER_SITES[(h // 2) % len(HIER_SITES)]]):
+                    if (idx + vi) % k != i:
+                        continue
+                    reg = [[c, behs[(h // 16 + 3 * j) % (len(behs) if (h // 8) % 4 == 0 else 2)]] for j, c in enumerate(rs)]
+                    if len(rs) == 2 and rs[0] == rs[1] and reg[0][1] == reg[1][1]:
+                        reg[1][1] = 'http' if reg[0][1] == 'sets' else 'sets'         # twice the same class: two different handlers
+                    if (h // 64) % 2:
+                        reg.reverse()
+                    case = {'stack': stack, 'independent': bool((h + vi) % 2), 'target': 'route', 'comps': [{m: 'ret' for m in METHS}, {m: 'ret' for m in METHS}],
+                            'hooks': [], 'responder': 'ret', 'hier': {'classes': [[n, list(b)] for n, b in tpl], 'raised': tpl[-1][0], 'reg': reg}}
+                    _place(case, st_, 'mi')
+                    if case['hooks']:
+                        case['class_hooks'] = (h // 32) % 3
+                    if (h // 128) % 4 == 0:
+                        case['hcomplete'] = list(CUSTOM)
+                    if (h // 512) % 5 == 0:
+                        case['handlers'] = {TABLE_KEYS[(h // 4096) % 3]: BEHS[(h // 16384) % len(BEHS)]}
+                    yield 1, case
+
+
+def _random_hier(rnd):
+    """a random hierarchy: 2..6 classes, each with 0..3 bases among the earlier ones and the built-in / falcon classes; the last one (an
+    exception class) is raised; handlers for a random choice of exception classes in and outside its MRO"""
+    roots = ['Exception', 'Exception', 'ValueError', 'KeyError', 'LookupError', 'RuntimeError', 'HTTPForbidden', 'HTTPTooManyRequests', 'HTTPNotFound',
+             'HTTPError', 'HTTPStatus', 'BaseOnly']
+    for _ in range(50):
+        classes = []
+        for j in range(rnd.randint(2, 6)):
+            pool = [n for n, _b in classes] + rnd.sample(roots, 3)
+            nb = rnd.choice([0, 1, 1, 2, 2, 2, 3]) if j < 2 else rnd.choice([1, 2, 2, 2, 3])
+            classes.append([f'K{j}', rnd.sample(pool, min(nb, len(pool)))])
+        table = dict(HIER_BUILTIN, **{n: list(b) for n, b in classes})
+        mro = _c3(classes[-1][0], table)
+        if mro is None or 'BaseException' not in mro or any(_c3(n, table) is None for n, _b in classes):
+            continue
+        if 'HTTPStatus' in mro and 'HTTPError' in mro:
+            continue                            # (instance lay-out conflict: the interpreter rejects the class)
+        if any('HTTPStatus' in _c3(n, table) and 'HTTPError' in _c3(n, table) for n, _b in classes):
+            continue
+        able = _hier_registrable(classes)
+        other = [n for n, _b in classes if n not in mro and 'Exception' in _c3(n, table)] + ['ValueError', 'KeyError', 'HTTPNotFound']
+        reg = [[c, rnd.choice(BEHS)] for c in rnd.sample(able, rnd.randint(0, min(3, len(able))))]
+        reg += [[c, rnd.choice(BEHS)] for c in rnd.sample(other, rnd.randint(0, 2)) if c not in mro]
+        if reg and rnd.random() < 0.3:
+            reg.append([rnd.choice(reg)[0], rnd.choice(BEHS)])      # one class registered again: the latest wins
+        rnd.shuffle(reg)
+        return {'classes': classes, 'raised': classes[-1][0], 'reg': reg}
+    return {'classes': [[n, list(b)] for n, b in HIER_TEMPLATES[0]], 'raised': 'Raised', 'reg': [['AppError', 'sets']]}
+
+
 LAYOUTS = ['flat', 'suffix', 'inherited', 'inherited_suffix', 'grandparent', 'mixin', 'base_decorated', 'split_decorated']
 
 
@@ -1228,8 +1593,12 @@ def _random_case(rnd):
         # the registration table: the application's own handlers for HTTPStatus / HTTPError / Exception
         case['handlers'] = {key: rnd.choice(BEHS) for key in rnd.sample(TABLE_KEYS, rnd.choice([1, 1, 2, 3]))}
     sites = [(ci, m) for ci, c in enumerate(comps) for m in METHS if c[m] is not None] + [('responder', None)] + [('hook', k) for k in range(len(hooks))]
+    if rnd.random() < 0.12:
+        case['hier'] = _random_hier(rnd)        # what is raised (action 'mi') is of a class with a generated hierarchy
     for (a, b) in rnd.sample(sites, min(len(sites), rnd.choice([0, 1, 1, 2, 2, 3, 4]))):
         f = rnd.choice(FAULTS_T if 'handlers' in case or rnd.random() < 0.2 else FAULTS)
+        if 'hier' in case and rnd.random() < 0.6:
+            f = 'mi'
         if a == 'responder':
             case['responder'] = f
         elif a == 'hook':
@@ -1278,7 +1647,12 @@ def _requests(ctx):
     tsess = ctx.session('App.__call__ + _find_error_handler + _handle_exception with the REGISTRATION TABLE of error handlers as an input (the application\'s own '
                         'handlers for HTTPStatus / HTTPError / Exception and for its own classes; returning, raising HTTPError / HTTPStatus / a plain exception, re-raising): '
                         'every call, WHICH handler is invoked for which site, final status / escape, final resp.complete (WSGI+ASGI) = Pg.run', 'pgdriver')
+    esess = ctx.session('App._find_error_handler for an instance of a class with a generated HIERARCHY (several bases, diamonds, mixins; handlers registered for any '
+                        'classes of it, some twice) = Eh.find over type(ex).__mro__[:-1] and the registration history', 'ehdriver')
     if not ctx.searching:
+        for nf, case in _enumerated_hier(ctx, not ctx.quick):
+            _execute(ctx, sess, hsess, case, xsess=xsess, psess=psess, tsess=tsess, esess=esess)
+            ctx.count(f'enumerated_class_hierarchies_{nf}_fault')
         for nf, case in _enumerated(ctx, *((3, 1) if ctx.quick else (4, 2))):
             _execute(ctx, sess, hsess, case, xsess=xsess, psess=psess, tsess=tsess)
             ctx.count(f'enumerated_{nf}_fault')
@@ -1302,9 +1676,10 @@ def _requests(ctx):
             ctx.count(f'enumerated_targets_that_are_not_routes_{nf}_fault')
     for j in range(ctx.n(16000, 100000)):
         case = _random_case(rnd)
-        _execute(ctx, sess, hsess, case, via_testing=(j % 16 == 0), xsess=xsess, psess=psess, tsess=tsess)
+        _execute(ctx, sess, hsess, case, via_testing=(j % 16 == 0), xsess=xsess, psess=psess, tsess=tsess, esess=esess)
         ctx.count('random')
     sess.finish()
+    esess.finish()
     xsess.finish()
     psess.finish()
     tsess.finish()
@@ -1564,24 +1939,39 @@ def _websocket(ctx):
 
 # ------------------------------------------------------------------ ASGI lifespan
 
-def _lifespan_spec(comps):
-    """startup handlers in order, shutdown handlers in reverse; the first failure is reported and stops the sequence."""
+def _lifespan_spec(comps, late=()):
+    """startup handlers in order, shutdown handlers in reverse; the first failure is reported and stops the sequence - for the app's stack of
+    components AT THE TIME THE EVENT IS PROCESSED: add_middleware is documented as "as if they had been appended to the original middleware list
+    passed to the class initializer" and may be called at any time, also after the server opened the lifespan scope.  late: components added
+    (in this order) `before_startup` (the scope is open, the startup event not yet delivered), `in_startup` (by the process_startup handler of
+    component comps[i] with i in its 'adds' - the new component stands after the one that adds it, so it is started in the same pass) or
+    `between` (after startup completed, before the shutdown event).  Returns (calls, events, the stack at the end)."""
     calls, events = [], []
-    for i, c in enumerate(comps):
+    stack = [(i, c) for i, c in enumerate(comps)]
+    n = len(comps)
+    stack += [(n + j, c) for j, c in enumerate(late) if c['when'] == 'before_startup']
+    started = set()
+    pos = 0
+    while pos < len(stack):
+        i, c = stack[pos]
+        pos += 1
+        started.add(i)
         if c['startup'] is None:
             continue
         calls.append(f'startup:{i}')
+        for j in c.get('adds', ()):
+            stack.append((n + j, late[j]))
         if c['startup'] == 'raise':
-            return calls, ['lifespan.startup.failed']
+            return calls, ['lifespan.startup.failed'], stack, started
     events.append('lifespan.startup.complete')
-    for i in reversed(range(len(comps))):
-        c = comps[i]
+    stack += [(n + j, c) for j, c in enumerate(late) if c['when'] == 'between']
+    for i, c in reversed(stack):
         if c['shutdown'] is None:
             continue
         calls.append(f'shutdown:{i}')
         if c['shutdown'] == 'raise':
-            return calls, events + ['lifespan.shutdown.failed']
-    return calls, events + ['lifespan.shutdown.complete']
+            return calls, events + ['lifespan.shutdown.failed'], stack, started
+    return calls, events + ['lifespan.shutdown.complete'], stack, started
 
 
 LIFESPAN_OTHER = ['process_request', 'process_resource', 'process_response', 'process_request_ws', 'process_resource_ws']
@@ -1594,14 +1984,18 @@ def _lifespan(ctx):
     rnd = ctx.rng
     sess = ctx.session('ASGI lifespan handler sequencing = Hk.lifespan', 'hkdriver')
 
-    async def one(comps):
+    async def one(comps, late=()):
         calls = []
+        holder = {}
+        n = len(comps)
 
         def mk(i, c):
             d = {}
             if c['startup'] is not None:
-                async def process_startup(self, scope, event, a=c['startup']):
+                async def process_startup(self, scope, event, a=c['startup'], adds=tuple(c.get('adds', ()))):
                     calls.append(f'startup:{i}')
+                    for j in adds:          # a handler that completes the stack with a component needing what it has just opened
+                        holder['app'].add_middleware(mk(n + j, late[j]))
                     if a == 'raise': raise RuntimeError('startup failed')
                 d['process_startup'] = process_startup
             if c['shutdown'] is not None:
@@ -1616,22 +2010,39 @@ def _lifespan(ctx):
                 async def wrong(self, *a, _n=name, **k): calls.append(f'WRONG-{_n}:{i}')
                 d[name] = wrong
             return type(f'L{i}', (), d)()
-        app = falcon.asgi.App(middleware=[mk(i, c) for i, c in enumerate(comps)])
-        pending = [{'type': 'lifespan.startup'}, {'type': 'lifespan.shutdown'}]
-        never = asyncio.get_running_loop().create_future()
+        app = holder['app'] = falcon.asgi.App(middleware=[mk(i, c) for i, c in enumerate(comps)])
+        queue = asyncio.Queue()
         sent = []
 
         async def receive():
-            if pending:
-                return pending.pop(0)
-            await never
+            return await queue.get()
 
         async def send(ev):
             sent.append(ev)
+
+        async def settle(until):
+            for _ in range(200):
+                if task.done() or until():
+                    return
+                await asyncio.sleep(0)
         scope = {'type': 'lifespan', 'asgi': {'version': '3.0', 'spec_version': '2.0'}}
         blocked = escaped = None
+        # the server opens the lifespan scope: the app coroutine runs until it waits for the first event
+        task = asyncio.ensure_future(app(scope, receive, send))
+        await asyncio.sleep(0)
+        await asyncio.sleep(0)
+        for j, c in enumerate(late):
+            if c['when'] == 'before_startup':
+                app.add_middleware(mk(n + j, c) if j % 2 else [mk(n + j, c)])
+        queue.put_nowait({'type': 'lifespan.startup'})
+        await settle(lambda: any(e['type'].startswith('lifespan.startup.') for e in sent))
+        if not task.done():
+            for j, c in enumerate(late):
+                if c['when'] == 'between':
+                    app.add_middleware(mk(n + j, c) if j % 2 else [mk(n + j, c)])
+        queue.put_nowait({'type': 'lifespan.shutdown'})
         try:
-            await asyncio.wait_for(app(scope, receive, send), 1.0)
+            await asyncio.wait_for(task, 1.0)
         except asyncio.TimeoutError:
             blocked = True
         except Exception as e:  # noqa
@@ -1647,19 +2058,45 @@ def _lifespan(ctx):
         sites = [(i, k) for i, c in enumerate(comps) for k in ('startup', 'shutdown') if c[k] is not None]
         for (i, k) in rnd.sample(sites, min(len(sites), rnd.choice([0, 0, 1, 1, 2]))):
             comps[i][k] = 'raise'
-        calls, sent, blocked, escaped = loop().run_until_complete(one(comps))
-        exp_calls, exp_events = _lifespan_spec(comps)
+        # THE HISTORY: components added with add_middleware AFTER the server opened the lifespan scope (half of the runs): before the startup
+        # event is delivered, by a process_startup handler, between startup and shutdown
+        late = []
+        if rnd.random() < 0.5:
+            def lc(when):
+                return {'when': when, 'startup': rnd.choice([None, 'ret', 'ret', 'ret', 'raise'] if when != 'between' else [None, 'ret', 'ret']),
+                        'shutdown': rnd.choice([None, 'ret', 'ret', 'ret', 'ret', 'raise']),
+                        'other': sorted(rnd.sample(LIFESPAN_OTHER, rnd.randint(1, len(LIFESPAN_OTHER)))) if rnd.random() < 0.3 else []}
+            late += [lc('before_startup') for _ in range(rnd.choice([0, 0, 1, 1, 2]))]
+            for c in comps:
+                if c['startup'] is not None and rnd.random() < 0.3:
+                    c['adds'] = [len(late)]
+                    late.append(lc('in_startup'))
+            late += [lc('between') for _ in range(rnd.choice([0, 0, 1, 1, 2]) if late else rnd.choice([1, 1, 2]))]
+        calls, sent, blocked, escaped = loop().run_until_complete(one(comps, late))
+        exp_calls, exp_events, stack, started = _lifespan_spec(comps, late)
         types = [e['type'] for e in sent]
         what = None
         if blocked: what = 'the lifespan coroutine did not return'
         elif escaped is not None: what = f'exception escaped the lifespan protocol: {escaped!r}'
-        elif calls != exp_calls: what = f'handler calls {calls}, documented order {exp_calls}'
+        elif calls != exp_calls: what = f'handler calls {calls}, documented order {exp_calls} (components are numbered: the original stack, then the ones added later in the order of `late`)'
         elif types != exp_events: what = f'events sent {types}, expected {exp_events}'
         elif any(t.endswith('.failed') and not e.get('message') for t, e in zip(types, sent)): what = 'failure event without a message'
-        ctx.oracle(name, what is None, what, {'lifespan_components': comps})
-        line = 'lifespan ' + ' '.join(('-' if c['startup'] is None else 'x' if c['startup'] == 'raise' else 'r') + ('-' if c['shutdown'] is None else 'x' if c['shutdown'] == 'raise' else 'r') for c in comps)
-        sess.case({'components': comps})
-        sess.op(line, ' '.join(calls) + ' | ' + ' '.join(types))
+        ctx.oracle(name, what is None, what, {'lifespan_components': comps, 'late': late})
+        # the model takes ONE stack: the stack as it stands at the end, a component that was not there when the startup event was processed being
+        # one without process_startup; calls are renumbered by stack position
+        eff = [(i, c['startup'] if i in started else None, c['shutdown']) for i, c in stack]
+        posn = {i: k_ for k_, (i, _s, _h) in enumerate(eff)}
+        line = 'lifespan ' + ' '.join(('-' if st_ is None else 'x' if st_ == 'raise' else 'r') + ('-' if sh_ is None else 'x' if sh_ == 'raise' else 'r') for _i, st_, sh_ in eff)
+
+        def renum(cl):
+            kind, _, i_ = cl.partition(':')
+            return f'{kind}:{posn[int(i_)]}' if i_.isdigit() and int(i_) in posn else cl
+        sess.case({'components': comps, 'late': late})
+        sess.op(line, ' '.join(renum(cl) for cl in calls) + ' | ' + ' '.join(types))
+        for w_ in sorted({c['when'] for c in late}):
+            ctx.count('lifespan_history_add_middleware_after_the_scope_was_opened_' + w_)
+        if late:
+            ctx.count('lifespan_with_components_added_after_the_scope_was_opened')
         ctx.seen(('lifespan', line), bool(calls))
         ctx.count('lifespan')
         if any(c['other'] for c in comps):
